@@ -23,6 +23,7 @@ RULE = (
     "contain its own; whenever it is elected leader, the assignments in the SyncGroup it writes are parsed independently and checked against the "
     "member list and subscriptions the coordinator model handed out and the cluster's partitions (same clauses), and a join won as leader must be "
     "followed by a SyncGroup or another attempt once faults cease; non-trivial there = a checked leader assignment with >= 2 members or generations."
+    ' Partitions may be leaderless while the leader looks the partition lists up (op noleader): they are still assigned.'
 )
 ASSUMPTIONS = [
     "for the direct calls the partition map handed to generate_assignments covers every subscribed topic; obtaining it is the coordinator's job, exercised by the leader-path traces",
